@@ -48,6 +48,8 @@ type Contract struct {
 type callSiteRule struct {
 	callee string
 	req    *SpecExpr
+	ghost  string
+	then   *SpecExpr
 }
 
 type SpecMacro struct {
@@ -440,11 +442,29 @@ func (db *SpecDB) loadSpecFile(path, pkgPath string) error {
 				if k < 0 {
 					return fmt.Errorf("%s:%d: callsite needs '<callee> requires <expr>'", path, l.line)
 				}
-				e, err := parseSpecExpr(rest[k+len(" requires "):], path, l.line)
+				body := rest[k+len(" requires "):]
+				rule := callSiteRule{callee: strings.TrimSpace(rest[:k])}
+				// optional effect on a ghost variable: "... then <ghost> = <expr>" (res0, res1.. name the call's results)
+				if ti := strings.Index(body, " then "); ti >= 0 {
+					eff := body[ti+len(" then "):]
+					body = body[:ti]
+					eq := strings.Index(eff, "=")
+					if eq < 0 {
+						return fmt.Errorf("%s:%d: callsite effect must be '<ghost> = <expr>'", path, l.line)
+					}
+					rule.ghost = strings.TrimSpace(eff[:eq])
+					te, err := parseSpecExpr(eff[eq+1:], path, l.line)
+					if err != nil {
+						return err
+					}
+					rule.then = te
+				}
+				e, err := parseSpecExpr(body, path, l.line)
 				if err != nil {
 					return err
 				}
-				cur.CallSites = append(cur.CallSites, callSiteRule{callee: strings.TrimSpace(rest[:k]), req: e})
+				rule.req = e
+				cur.CallSites = append(cur.CallSites, rule)
 			case "guarded_by", "monitor":
 				k := strings.Index(rest, ":")
 				if k < 0 {
